@@ -19,32 +19,32 @@ NOT_APPLICABLE = {
 }
 CHECKS = {
     'C01': {
-        'text': 'every operator chain of <=3 operators over distinct primes with one decoration (-,+,%) and one parenthesis pair (exhaustive in the thorough tier), Hypothesis typed expression trees over literals and references fed by workbook constants / overrides / blanks, and a numeric-literal grid, each evaluated through Parser+Executor and compared with an independent precedence-aware evaluator; text forms under & (booleans, blanks, quotients); independent-executor witnesses around every override',
-        'note': 'trusted: vf/ref/formula.py (own Pratt parser + evaluator written from the statement), IEEE doubles, tolerance 1e-12; text forms under & asserted for booleans, blanks and numbers without exponent form',
+        'text': 'every operator chain of <=3 operators over distinct primes with one decoration (-,+,%) and one parenthesis pair (exhaustive in the thorough tier), Hypothesis typed expression trees over literals and references fed by workbook constants / overrides / blanks, and a numeric-literal grid, each evaluated through Parser+Executor and compared with an independent precedence-aware evaluator; text forms under & (booleans, blanks, quotients); independent-executor witnesses around every override; lane big: doubles of 2**53..1e300 from overrides, literals, quotients and stored whole numbers under & (Excel\'s exponent form), +1-1, /2*2; wildcard / tilde characters in operand texts',
+        'note': 'trusted: vf/ref/formula.py (own Pratt parser + evaluator written from the statement), IEEE doubles, tolerance 1e-12; text forms under & asserted for booleans, blanks and numbers without exponent form; arithmetic on stored whole numbers beyond 2**53 not asserted',
         'technique': 'exhaustive small-bound enumeration + Hypothesis typed ASTs vs reference evaluator (differential)',
     },
     'C10': {
-        'text': 'exhaustive grid of ~25k ordered operand pairs (numbers incl. fractions/signs, texts incl. numeric-looking, dates/date-times, blank) x 6 operators x both orders through overrides, integers beyond 2^53 that collapse to one double, 0 / FALSE / blank against the same partner inside one instance, plus samples as workbook constants and literals and Hypothesis-drawn doubles/texts; exact rational oracle for numbers, the algebraic laws for every same-kind pair',
+        'text': 'exhaustive grid of ~25k ordered operand pairs (numbers incl. fractions/signs, texts incl. numeric-looking, dates/date-times, blank) x 6 operators x both orders through overrides, integers beyond 2^53 that collapse to one double, 0 / FALSE / blank against the same partner inside one instance, plus samples as workbook constants and literals and Hypothesis-drawn doubles/texts; exact rational oracle for numbers, the algebraic laws for every same-kind pair; lane mixed: a cell against a literal (texts with ? * ~ included), identical texts must be equal',
         'note': 'trusted: fractions.Fraction, datetime, openpyxl writer; text collation is only checked against the laws',
         'technique': 'exhaustive grid + Hypothesis-drawn pairs against exact rational comparison and algebraic laws',
     },
     'C11': {
-        'text': 'Hypothesis-generated cell blocks (all content kinds) and argument lists (areas, whole columns, other sheets, cells, literals, re-split areas, embedded calls) for SUM/AVERAGE/MIN/MAX/COUNT/COUNTBLANK/AND/OR, the same texts on a second sheet, a data-only third sheet whose areas reach beyond its used range, contents planted through set_cells after translation (also into blank cells and below whole columns; every second executor has a past of other overrides and evaluations), totals over a column of row-subtotal formulas, compared with an independent fold over the generator\'s content map',
+        'text': 'Hypothesis-generated cell blocks (all content kinds) and argument lists (areas, whole columns, other sheets, cells, literals, re-split areas, embedded calls) for SUM/AVERAGE/MIN/MAX/COUNT/COUNTBLANK/AND/OR, the same texts on a second sheet, a data-only third sheet whose areas reach beyond its used range, contents planted through set_cells after translation (also into blank cells and below whole columns; every second executor has a past of other overrides and evaluations), totals over a column of row-subtotal formulas, compared with an independent fold over the generator\'s content map; blank-only texts in areas, words that python\'s float() accepts among the arguments of COUNT',
         'note': 'trusted: the generator\'s content map and fold (vf/props/c11.py); dates only under COUNT/COUNTBLANK, AND/OR without text/blank, empty AVERAGE/MIN/MAX not asserted',
         'technique': 'Hypothesis structured generation vs independent fold (reference model) + metamorphic re-splitting',
     },
     'C12': {
-        'text': 'Hypothesis-generated criteria columns / target columns / criterion forms (plain, operator-prefixed, &-assembled, wildcard) for SUMIF/SUMIFS/COUNTIFS/AVERAGEIFS incl. misaligned ranges, two-column areas, SUMIF sum ranges of another size or orientation, criterion cells supplied through overrides, mixed ?* runs, compared with a select-then-fold oracle with its own wildcard matcher',
+        'text': 'Hypothesis-generated criteria columns / target columns / criterion forms (plain, operator-prefixed, &-assembled, wildcard) for SUMIF/SUMIFS/COUNTIFS/AVERAGEIFS incl. misaligned ranges, two-column areas, SUMIF sum ranges of another size or orientation, criterion cells supplied through overrides, mixed ?* runs, compared with a select-then-fold oracle with its own wildcard matcher; blanks around criterion numbers and inside text criteria, texts inside SUMIF / SUMIFS sum ranges',
         'note': 'trusted: vf/props/c12.py oracle; blanks under numeric criteria, numbers under patterns, date criteria are outside the asserted domain',
         'technique': 'Hypothesis structured generation vs select-then-fold reference model',
     },
     'C13': {
-        'text': 'Hypothesis nests of IF/IFS/IFERROR up to depth 5 (conditions that fail included), bare and embedded in operators/functions, evaluated under every truth assignment (true/zero/blank/5) of their condition cells through overrides and compared with a lazy reference evaluator (untaken failing branches and conditions must not surface; failures of every kind: division by zero, error-valued cell, cell whose own formula raises, date function of a text, ranges of different sizes, lookup outside the table, text that is no number; #-texts that are no error values)',
+        'text': 'Hypothesis nests of IF/IFS/IFERROR up to depth 5 (conditions that fail included), bare and embedded in operators/functions, evaluated under every truth assignment (true/zero/blank/5) of their condition cells through overrides and compared with a lazy reference evaluator (untaken failing branches and conditions must not surface; failures of every kind: division by zero, error-valued cell, cell whose own formula raises, date function of a text, ranges of different sizes, lookup outside the table, text that is no number; #-texts that are no error values); every Excel error value as a failing cell',
         'note': 'trusted: vf/ref/formula.py lazy semantics; how error values travel through other operators is not asserted',
         'technique': 'Hypothesis ASTs x exhaustive truth assignments vs lazy reference evaluator',
     },
     'C14': {
-        'text': 'Hypothesis tables (ascending/unsorted/duplicate/text/blank keys, width 1-4) with VLOOKUP exact/approximate/omitted, MATCH 0/1/omitted, XMATCH from start/end and binary over ascending keys, mixed-case text keys, INDEX over every (r,c) around the area, INDEX(MATCH), COLUMN, the same unqualified texts on a twin sheet with other payload, whole-column spellings of the key column / table and keys planted below the data through the executor (positions are row numbers); ADDRESS exhaustively over all 16384 columns x sampled rows; oracle = independent linear search / direct indexing / bijective base-26',
+        'text': 'Hypothesis tables (ascending/unsorted/duplicate/text/blank keys, width 1-4) with VLOOKUP exact/approximate/omitted, MATCH 0/1/omitted, XMATCH from start/end and binary over ascending keys, mixed-case text keys, INDEX over every (r,c) around the area, INDEX(MATCH), COLUMN, the same unqualified texts on a twin sheet with other payload, whole-column spellings of the key column / table and keys planted below the data through the executor (positions are row numbers); ADDRESS exhaustively over all 16384 columns x sampled rows; oracle = independent linear search / direct indexing / bijective base-26; keys that differ only in the 13th digit / at 1e-13, computed (float) INDEX positions, a zero index whose partner lies outside the area',
         'note': 'trusted: vf/props/c14.py oracles; approximate matching only on ascending numeric keys; 0-index INDEX and binary XMATCH modes not asserted',
         'technique': 'Hypothesis + boundary construction vs reference search; exhaustive ADDRESS sweep',
     },
@@ -54,17 +54,17 @@ CHECKS = {
         'technique': 'exhaustive grid enumeration vs datetime/calendar reference',
     },
     'C16': {
-        'text': 'decimal grid sign x 9 integer parts x all four-digit fractions x digits -3..6 x ROUND/ROUNDUP/ROUNDDOWN (+1-argument forms, x%) through overrides on one long-lived executor per operand (quick: every tie / every fraction ending in 0 or 5 / stride-37 background), samples as literals and constants, Hypothesis decimals up to 15 significant digits; oracle = decimal.quantize',
+        'text': 'decimal grid sign x 9 integer parts x all four-digit fractions x digits -3..6 x ROUND/ROUNDUP/ROUNDDOWN (+1-argument forms, x%) through overrides on one long-lived executor per operand (quick: every tie / every fraction ending in 0 or 5 / stride-37 background), samples as literals and constants, Hypothesis decimals up to 15 significant digits; oracle = decimal.quantize; even runs of minus signs in front of the operand',
         'note': 'trusted: python decimal; operands are the doubles nearest to <=15-digit decimal texts',
         'technique': 'exhaustive decimal grid + Hypothesis decimals vs decimal.Decimal.quantize',
     },
     'C17': {
-        'text': 'Hypothesis texts over a mixed-case alphabet with wildcard and regex-special characters (as constants, literals, overrides) x positions/counts around the length for LEFT/RIGHT/MID, the rebuild identity, & / CONCATENATE (texts, numbers, quotients, booleans), SEARCH (plain/wildcard/escaped/regex-special needles, start positions), VALUE; oracle = slicing, own wildcard prefix matcher, Decimal',
+        'text': 'Hypothesis texts over a mixed-case alphabet with wildcard and regex-special characters (as constants, literals, overrides) x positions/counts around the length for LEFT/RIGHT/MID, the rebuild identity, & / CONCATENATE (texts, numbers, quotients, booleans), SEARCH (plain/wildcard/escaped/regex-special needles, start positions), VALUE; oracle = slicing, own wildcard prefix matcher, Decimal; texts with a line break under SEARCH wildcards, numbers of the decade 1e15..1e17 under & / CONCATENATE',
         'note': 'trusted: vf/props/c17.py oracles; SEARCH start asserted for 1..len, text form of numbers only for ints / short decimals',
         'technique': 'Hypothesis structured generation vs substring-algebra reference + round-trip identity',
     },
     'C02': {
-        'text': 'Hypothesis workbooks of 2-4 coordinate-coded sheets (titles from identifier / unicode / cell-like / spaces / punctuation / leading-digit / ! / apostrophe classes) x reference forms ($-marks on any component; no / unquoted / quoted prefix; cell, column range, row range, rectangle, whole column(s); far cells up to XFD / row 99 999) x positions (bare, SUM/COUNT/MAX, INDEX, VLOOKUP, MATCH, SUMIF(S)/COUNTIFS/AVERAGEIFS, COLUMN), whole-file and entry-point translation; sheets without any cell between the others, digit-only titles that differ from the sheet\'s own index, the same unqualified text placed on two sheets and the same area text once per sheet; oracle = the generator\'s own coordinate map; a missing title must be rejected',
+        'text': 'Hypothesis workbooks of 2-4 coordinate-coded sheets (titles from identifier / unicode / cell-like / spaces / punctuation / leading-digit / ! / apostrophe classes) x reference forms ($-marks on any component; no / unquoted / quoted prefix; cell, column range, row range, rectangle, whole column(s); far cells up to XFD / row 99 999) x positions (bare, SUM/COUNT/MAX, INDEX, VLOOKUP, MATCH, SUMIF(S)/COUNTIFS/AVERAGEIFS, COLUMN), whole-file and entry-point translation; sheets without any cell between the others, digit-only titles that differ from the sheet\'s own index, the same unqualified text placed on two sheets and the same area text once per sheet; oracle = the generator\'s own coordinate map; a missing title must be rejected; enumerated lanes: long-mantissa floats read back exactly through every reference form (cell and override), workbooks of 12 / 13 / 23 sheets x 13 columns (cells, areas, overrides)',
         'note': 'trusted: the coordinate code 1_000_003*sheet+1_009*col+row and vf/props/c02.py fold; reversed areas and whole-row references are not generated; nesting of a bare area result not asserted',
         'technique': 'Hypothesis structured generation vs coordinate-map reference model',
     },
